@@ -13,7 +13,9 @@ meta = {
     "origin": "fresh sub-agent given only the property text and a scratch worktree",
     "needs_to_manifest": notes.strip(),
     "confirmed": "tools/confirm_seed.sh: demo exits 0 without the patch; with the patch the 911 tests pass and the demo exits non-zero (scratch worktree)",
-    "ran": f"tools/run_seed.sh seeded/{src.name} {prop}   (git -C /repo apply; ./check {prop} --tier quick; git -C /repo checkout -- .)",
+    "ran": (sys.argv[5] if len(sys.argv) > 5 else
+            f"tools/try_patch.sh seeded/{src.name}/patch.diff {prop}   (scratch worktree of /repo with the patch applied, JINJA_REPO pointing "
+            f"at it, ./check {prop} --tier quick; /repo itself untouched because builders were reading it)"),
     "detected_by_quick_check": det == "yes",
     "check_report": rep,
 }
